@@ -145,6 +145,24 @@ def body_map(env):
         out = mf.map_across_gap(ones_g[:F.shape[1]] * np.array([1.0 if f < ng else 0.0 for f in range(F.shape[1])]), F)
         for c in range(nr):
             env.eq('map_across_gap(uniform) is uniform (cell %d)' % c, out[c], 1.0, tol=1e-9)
+        # arbitrary fields through the real map_across_gap, both directions: the transfer is the action of the matrices
+        # (also when a matrix is square but not the identity: equal cell counts, different pitches)
+        vg = np.empty(F.shape[1], dtype=object)
+        for f in range(F.shape[1]):
+            vg[f] = env.real('field_gap%d' % f, lo=-1e4, hi=1e4)
+        vr = np.empty(nr, dtype=object)
+        for c in range(nr):
+            vr[c] = env.real('field_duct%d' % c, lo=-1e4, hi=1e4)
+        if env.mode == 'replay':
+            vg, vr = vg.astype(float), vr.astype(float)
+        og = mf.map_across_gap(vg, F)
+        orr = mf.map_across_gap(vr, C)
+        for c in range(nr):
+            env.eq('map_across_gap: gap field onto duct cell %d = row %d of the gap->duct matrix applied to it' % (c, c), og[c],
+                   _sum(F[c, f] * vg[f] for f in range(F.shape[1])), tol=1e-9, key='transfer_is_not_the_matrix_action')
+        for f in range(C.shape[0]):
+            env.eq('map_across_gap: duct field onto gap cell %d = row %d of the duct->gap matrix applied to it' % (f, f), orr[f],
+                   _sum(C[f, c] * vr[c] for c in range(nr)), tol=1e-9, key='transfer_is_not_the_matrix_action')
         if rel == 'equal':
             for c in range(nr):
                 for f in range(ng):
@@ -186,7 +204,12 @@ def instances(tier):
             for rel in (('equal', 'distinct') if same else (None,)):
                 inst.append(dict(label='map[region=%s,gap=%s%s]' % ('-'.join(map(str, r)), ''.join(map(str, g)), ',' + rel if rel else ''),
                                  body=body_map, params={'region': r, 'gap': g, 'rel': rel}, max_paths=512, max_depth=400, timeout_ms=60000))
-    for l in ('two-a2-a3', 'three-a2-a3-ur', 'ring-no-centre', 'six-hole', 'seven-mixed', 'seven-alt', 'three-a3-dd-u6'):
+                if same:
+                    # the assembly with the most gap cells of its core: no padding columns, the matrices are square
+                    inst.append(dict(label='map[region=%s,gap=%s,%s,no padding]' % ('-'.join(map(str, r)), ''.join(map(str, g)), rel),
+                                     body=body_map, params={'region': r, 'gap': g, 'rel': rel, 'pad': 0}, max_paths=512, max_depth=400,
+                                     timeout_ms=60000))
+    for l in ('two-a2-a3', 'three-a2-a3-ur', 'ring-no-centre', 'six-hole', 'seven-mixed', 'seven-alt', 'three-a3-dd-u6', 'three-a3-b3-a2'):
         inst.append(dict(label='stored-maps[%s]' % l, body=body_stored, params={'layout': l}, check_vacuity=False))
     # regions with two and three duct walls: the boundaries must describe the outermost wall
     for nd in ((2,) if tier == 'quick' else (2, 3)):
